@@ -872,9 +872,9 @@ func (s *vSession) exec(t []string) string {
 		h := ag(t[1])
 		var res string
 		v := uint32(vAtoi(t[4]))
-		h.a.nominationValueGenerator = func() uint32 { return v }
+		var l, rc Candidate
 		_ = h.a.loop.Run(h.a.loop, func(context.Context) {
-			var l Candidate
+			h.a.nominationValueGenerator = func() uint32 { return v }
 			for _, cs := range h.a.localCandidates {
 				for _, c := range cs {
 					if vAddrID(c.addrPort()) == vAtoi(t[2]) && l == nil {
@@ -885,17 +885,21 @@ func (s *vSession) exec(t []string) string {
 			var rs []Candidate
 			rs = append(rs, h.a.remoteCandidates[NetworkTypeUDP4]...)
 			rs = append(rs, h.a.remoteCandidates[NetworkTypeUDP6]...)
-			ri := vAtoi(t[3])
+			if ri := vAtoi(t[3]); ri < len(rs) {
+				rc = rs[ri]
+			}
 			if !h.a.isControlling.Load() {
 				res = "err:notcontrolling"
 			} else if !h.a.enableRenomination {
 				res = "err:notenabled"
-			} else if l == nil || ri >= len(rs) {
+			} else if l == nil || rc == nil {
 				res = "err:notfound"
-			} else {
-				res = vErr(h.a.RenominateCandidate(l, rs[ri]))
 			}
 		})
+		if res == "" && !h.closed {
+			// the public API (it runs on the task loop itself)
+			res = vErr(h.a.RenominateCandidate(l, rc))
+		}
 		synctest.Wait()
 		if h.closed && res == "" {
 			res = "err:closed"
